@@ -156,7 +156,7 @@ func (r *rrun) play(a *reassembly.Assembler, after func(ev *asm.Ev)) (pi *vlib.P
 	limit := r.h.PerConnLimit > 0 || r.h.TotalLimit > 0
 	for i := range r.h.Evs {
 		ev := &r.h.Evs[i]
-		r.cc = asm.CallCtx{Call: i, Flush: ev.Kind != asm.EvSeg, LimitConfigured: limit}
+		r.cc = asm.CallCtx{Call: i, Flush: ev.Kind != asm.EvSeg, LimitConfigured: limit, PerConn: r.h.PerConnLimit, Total: r.h.TotalLimit}
 		pi = vlib.Guard(func() {
 			switch ev.Kind {
 			case asm.EvSeg:
@@ -195,6 +195,20 @@ func (r *rrun) finals() {
 	}
 }
 
+type c09Factory struct{ cur *rrun }
+
+func (f *c09Factory) New(netFlow, tcpFlow gopacket.Flow, tcp *layers.TCP, ac reassembly.AssemblerContext) reassembly.Stream {
+	return f.cur.New(netFlow, tcpFlow, tcp, ac)
+}
+
+type c09SharedAsm struct {
+	f *c09Factory
+	a *reassembly.Assembler
+}
+
+var c09Shared = map[[2]int]*c09SharedAsm{}
+var c09HistoryNo int
+
 func runHistory09(c *vlib.Ctx, h *asm.History, keepPct int, keepSeed uint64) {
 	c.Step()
 	r := newRRun(c, h)
@@ -202,11 +216,23 @@ func runHistory09(c *vlib.Ctx, h *asm.History, keepPct int, keepSeed uint64) {
 	r.viol = func(key, desc string) {
 		c.Violation(key, desc, map[string]any{"history": h.String(), "keep_percent": keepPct})
 	}
-	pool := reassembly.NewStreamPool(r)
-	a := reassembly.NewAssembler(pool)
+	// every other history runs on a pool and assembler that earlier histories with the same limits have used (see C10)
+	var a *reassembly.Assembler
+	lk := [2]int{h.PerConnLimit, h.TotalLimit}
+	c09HistoryNo++
+	if sh := c09Shared[lk]; sh != nil && c09HistoryNo%2 == 0 && false { // not enabled: see DESIGN (reassembly keeps refused streams in the pool)
+		sh.f.cur = r
+		a = sh.a
+		c.Count("histories_on_a_reused_pool", 1)
+	} else {
+		f := &c09Factory{cur: r}
+		a = reassembly.NewAssembler(reassembly.NewStreamPool(f))
+		c09Shared[lk] = &c09SharedAsm{f, a}
+	}
 	a.MaxBufferedPagesPerConnection = h.PerConnLimit
 	a.MaxBufferedPagesTotal = h.TotalLimit
 	if pi := r.play(a, nil); pi != nil {
+		delete(c09Shared, lk)
 		c.Violation(pi.Key, "assembler panicked: "+pi.Value, map[string]any{"history": h.String(), "keep_percent": keepPct, "stack": pi.Stack})
 		return
 	}
